@@ -452,12 +452,24 @@ pub fn c18(c: &Case, rep: &mut Report, seed: u64) {
             rep.violation(c, &format!("C18/{}/exports-changed", which), &format!("{:?} became {:?}", ein, eout), &blob);
         }
         // --- behaviour against the expected model
+        // imports may share a (module, field) pair: for the comparison every function import gets its input index
+        // appended to its field name, on both sides (the output keeps the remaining imports in input order and
+        // has the harness's trace import last - checked above), so that the host can tell them apart
+        let renamed_field = if kind == "imp" { format!("{}@{}", din.imports[func.import.unwrap_or(0)].field, fi) } else { String::new() };
+        let (ren_in, ren_out);
+        let (input, out): (&[u8], &[u8]) = if kind == "imp" {
+            ren_in = wv_oracle::sections::rename_func_imports(input, &|k, _m, f| format!("{}@{}", f, k)).unwrap_or_else(|| input.to_vec());
+            ren_out = wv_oracle::sections::rename_func_imports(out, &|j, m, f| if m == "wv" && f == "trace" { f.to_string() } else { format!("{}@{}", f, if j < fi { j } else { j + 1 }) }).unwrap_or_else(|| out.to_vec());
+            (&ren_in, &ren_out)
+        } else {
+            (input, out)
+        };
         let (mut a, b_) = if kind == "imp" {
             let imp = &din.imports[func.import.unwrap_or(0)];
-            let host = ReplHost { inner: StdHost::new(), module: imp.module.clone(), field: imp.field.clone() };
+            let host = ReplHost { inner: StdHost::new(), module: imp.module.clone(), field: renamed_field.clone() };
             SPECIAL_FUNC.with(|s| s.set(Some(fi)));
             let mut a = observe(input, &calls, Box::new(host));
-            normalise_traces(&mut a, &format!("{}.{}(", imp.module, imp.field));
+            normalise_traces(&mut a, &format!("{}.{}(", imp.module, renamed_field));
             // in the output the replaced function is the one whose body starts with the harness marker
             let out_idx = dout.funcs.iter().position(|f| f.body.as_ref().map(|b| matches!(b.ops.first().map(|o| &o.op), Some(wasmparser::Operator::I32Const { value: 0x7ACE }))).unwrap_or(false)).map(|i| i as u32);
             SPECIAL_FUNC.with(|s| s.set(out_idx));
@@ -478,7 +490,7 @@ pub fn c18(c: &Case, rep: &mut Report, seed: u64) {
         if let (Some(x), Some(y)) = (a.initial_state.last_mut(), b.initial_state.last_mut()) {
             if kind == "imp" {
                 let imp = &din.imports[func.import.unwrap_or(0)];
-                *x = x.replace(&format!("{}.{}(", imp.module, imp.field), "REPLACED(").replace("REPLACED(0)", "REPLACED(1)").replace("REPLACED(2)", "REPLACED(1)").replace("REPLACED(3)", "REPLACED(1)");
+                *x = x.replace(&format!("{}.{}(", imp.module, renamed_field), "REPLACED(").replace("REPLACED(0)", "REPLACED(1)").replace("REPLACED(2)", "REPLACED(1)").replace("REPLACED(3)", "REPLACED(1)");
                 *y = y.replace("wv.trace(", "REPLACED(");
             }
         }
